@@ -137,7 +137,7 @@ class Emitter:
         if 'baseInit' in ci:
             bt = lw.te.parse(ci['baseInit'].get('desugaredQualType') or ci['baseInit']['qualType'])
             def go():
-                ctx.init_into('&self->__base_%s' % sanitize(bt.name.split('::')[-1]), e)
+                ctx.init_into('&self->__base_%s' % sanitize(re.sub(r'<.*>$', '', bt.name).split('::')[-1]), e)
             pre, _, post = ctx.full(go)
             return pre + post
         if 'delegatingInit' in ci:
@@ -157,7 +157,7 @@ class Emitter:
         for b in reversed(f.cls.bases):
             bt = lw.te.parse(b)
             if lw.nontrivial_dtor(bt):
-                out.append(ctx.dtor_stmt(bt, '&self->__base_%s' % sanitize(bt.name.split('::')[-1])))
+                out.append(ctx.dtor_stmt(bt, '&self->__base_%s' % sanitize(re.sub(r'<.*>$', '', bt.name).split('::')[-1])))
         return out
 
     # ---------------------------------------------------------------- reachability
@@ -311,7 +311,7 @@ class Emitter:
             lines = ['/* %s */' % r.qual, '%s %s {' % ('union' if r.is_union else 'struct', r.cname)]
             for b in r.bases:
                 bt = lw.te.parse(b)
-                lines.append('  %s;' % lw.ctype(bt, '__base_' + sanitize(bt.name.split('::')[-1])))
+                lines.append('  %s;' % lw.ctype(bt, '__base_' + sanitize(re.sub(r'<.*>$', '', bt.name).split('::')[-1])))
             if self.needs_vptr(r):
                 lines.append('  int __dyn_type;')
             for (fname, _, fnode) in r.fields:
